@@ -147,3 +147,11 @@ pub use chrono::{DateTime, FixedOffset, Local, Utc};
 pub use regex::{Regex, RegexSet};
 
 mod tests;
+
+// Verification hooks (guard: `--cfg stam_verif`, or `cfg(kani)` which cargo-kani sets).
+// With the guard off nothing below is compiled. The included file lives outside this repository;
+// its location is given by the environment variable STAM_VERIF_DIR at build time.
+#[cfg(any(kani, stam_verif))]
+mod verif_hooks {
+    include!(concat!(env!("STAM_VERIF_DIR"), "/hooks/in_crate.rs"));
+}
